@@ -198,7 +198,7 @@ Section CanonProofs.
       destruct (contains_char ":" first).
       - destruct (span (contains_char ":") r1) as [bs r2].
         destruct (map_opt parse_range (first :: bs)) as [bounds|]; [|discriminate].
-        destruct (bounds_size bounds <=? 0)%Z; [discriminate|].
+        destruct (bounds_size bounds <=? 0)%Z; [destruct (bounds_size bounds <? 0)%Z; discriminate|].
         destruct (expand_ints SC e (Z.to_nat (bounds_size bounds)) r2 []) as [[us r3]|]; [|discriminate].
         cbn [bind] in H. destruct (span numeric_start r3) as [ps r'].
         destruct (map_opt (pyfloat e) ps); [|discriminate].
@@ -249,7 +249,7 @@ Section CanonProofs.
              destruct (contains_char ":" first);
              [destruct (span (contains_char ":") r1) as [bs r2];
               destruct (map_opt parse_range (first :: bs)) as [bounds|]; [|discriminate];
-              destruct (bounds_size bounds <=? 0)%Z; [discriminate|];
+              destruct (bounds_size bounds <=? 0)%Z; [destruct (bounds_size bounds <? 0)%Z; discriminate|];
               destruct (expand_ints SC e (Z.to_nat (bounds_size bounds)) r2 []) as [[us r3]|]; [|discriminate];
               cbn [bind] in H; destruct (span numeric_start r3) as [ps r'];
               destruct (map_opt (pyfloat e) ps); [|discriminate];
